@@ -44,6 +44,8 @@ var c10Attacks = []struct{ name, js string }{
 	{"env-bindings", `_.bindings = {"replaced": true};`},
 	{"env-props", `_.props = {"mid": "fake"};`},
 	{"env-self", `G._ = {"bindings": {}, "props": {}, "out": function() {}};`},
+	{"env-member", `_.stash = {"secret": "s3cret"}; _.bindings.leftover = "L";`},
+	{"bindings-permanent", `_.bindings["cfg!"].limits.max = 0; _.bindings["cfg!"].added = 1;`},
 	{"props-top", `_.props.mid = "evil"; _.props.extra = 1;`},
 	{"props-nested", `_.props.cfg.x = 42;`},
 	{"frozen", `Object.freeze(Object.prototype); Object.freeze(Array.prototype);`},
@@ -89,6 +91,10 @@ return r;
 // instead of returning bindings.
 var c10PolluterNull = false
 
+// c10PolluterThrows: polluters end by throwing (a failed action: whatever it defined or
+// altered before must be as invisible as after a success).
+var c10PolluterThrows = false
+
 func c10Polluter(attacks []int) string {
 	var sb strings.Builder
 	sb.WriteString("var tick = _.props.tick || function() {}; var G = (new Function(\"return this\"))();\n")
@@ -98,7 +104,9 @@ func c10Polluter(attacks []int) string {
 			sb.WriteString("tick();\n")
 		}
 	}
-	if c10PolluterNull {
+	if c10PolluterThrows {
+		sb.WriteString("throw new Error(\"the polluter fails in the end\");\n")
+	} else if c10PolluterNull {
 		sb.WriteString("return null;\n")
 	} else {
 		sb.WriteString("return {\"polluted\": true, \"id\": (_.bindings && _.bindings.id) || null};\n")
@@ -266,6 +274,7 @@ func runC10(c *sim.Ctx, t *testing.T, concurrent bool) {
 	// anything that is remembered per bindings value)
 	c10PolluterNull = c.Chance(1, 3, "rejecting")
 	sameIds := c10PolluterNull
+	c10PolluterThrows = !c10PolluterNull && c.Chance(1, 4, "throwing")
 	comp(c10Probe, nil)
 	np := 1 + c.Intn(3, "npolluters")
 	for i := 0; i < np; i++ {
@@ -296,6 +305,7 @@ func runC10(c *sim.Ctx, t *testing.T, concurrent bool) {
 	useCompiled := c.Bool("precompiled")
 	emptyProps := !concurrent && c.Chance(1, 3, "emptyprops")
 	nanBindings := c.Chance(1, 5, "nanbindings")
+	permBinding := c.Chance(1, 3, "permbinding")
 
 	type result struct {
 		bsBefore, bsAfter, propsBefore, propsAfter string
@@ -334,6 +344,10 @@ func runC10(c *sim.Ctx, t *testing.T, concurrent bool) {
 		if emptyProps {
 			props = core.StepProps{} // a host that passes empty, non-nil properties
 		}
+		if permBinding {
+			// a permanent binding with a structured value
+			bs["cfg!"] = map[string]interface{}{"limits": map[string]interface{}{"max": 10.0}}
+		}
 		if nanBindings {
 			// a value an earlier action computed (say sum/count with count == 0): the copy
 			// the interpreter makes of the bindings cannot be made through JSON
@@ -368,6 +382,9 @@ func runC10(c *sim.Ctx, t *testing.T, concurrent bool) {
 			want := map[string]interface{}{"owner!": fmt.Sprintf("o%d", i)}
 			if i%2 == 0 {
 				want[fmt.Sprintf("token%d!", i)] = float64(i)
+			}
+			if permBinding {
+				want["cfg!"] = map[string]interface{}{"limits": map[string]interface{}{"max": 10.0}}
 			}
 			gotPerm := map[string]interface{}{}
 			rest := map[string]interface{}{}
@@ -479,7 +496,12 @@ func runC10(c *sim.Ctx, t *testing.T, concurrent bool) {
 			}
 		} else {
 			c.Count("polluters")
-			if r.err != "" {
+			if c10PolluterThrows {
+				c.Count("polluters_that_fail")
+				if !strings.Contains(r.err, "the polluter fails in the end") {
+					c.Violate("isolation:polluter-failed", "polluter %d (%s) was to fail with its own error, got: %q", i, what, r.err)
+				}
+			} else if r.err != "" {
 				c.Violate("isolation:polluter-failed", "polluter %d (%s) failed: %s", i, what, r.err)
 			}
 		}
